@@ -138,7 +138,9 @@ def probe_stream(ctx, dist):
         lvl, nid = rng.choice([0, 1, 2]), rng.choice(["1", "2"])
         target = {"kind": "p", "style_id": sid, "style_name": sname, "numbering": (str(lvl), table[nid][lvl])}
         m = {"kind": "p", "style_id": sid if rng.random() < 0.6 else None,
-             "style_name": (rng.choice([("=", sname.swapcase()), ("^=", sname[:4])]) if rng.random() < 0.6 else None),
+             # (white space at either end of the quoted string is part of the name: `Title ` is not `Title`, `Sec ` is not a prefix of `Sector`)
+             "style_name": (rng.choice([("=", sname.swapcase()), ("^=", sname[:4]), ("=", sname + " "), ("=", " " + sname), ("^=", sname.split(" ")[0][:-1] + " "),
+                                        ("^=", "\t" + sname[:3]), ("=", sname + "\t")]) if rng.random() < 0.7 else None),
              "list": (("ordered-list" if target["numbering"][1] else "unordered-list", lvl + 1) if rng.random() < 0.7 else None)}
         other = [x for x in c03.STYLES[:4] if x[0] != sid][0]
         lvl2 = (lvl + 1) % 3
